@@ -517,6 +517,7 @@ func checkDry(sym bool, name string, faults int) {
 	db.faultBudget = faults
 	r := o.run(ctrl, true, "")
 	verifAssert("C07:dry-run-leaves-no-trace", stateDiff(pre.committed, db.committed, true) == "")
+	verifAssert("C08:dry-run-appends-no-log", len(db.committed.logs) == len(pre.committed.logs))
 	verifAssert("C02:dry-run-contributes-nothing", !db.volumesDiffer(pre.committed, db.committed))
 	if faults-db.faultBudget == 0 {
 		// compare with the real write on an identical ledger
